@@ -10,7 +10,7 @@ import math
 COMPS = [('H2O', {'H': 2, 'O': 1}), ('NH3', {'N': 1, 'H': 3}), ('N2O', {'N': 2, 'O': 1}),
          ('HNO3', {'H': 1, 'N': 1, 'O': 3}), ('O2', {'O': 2}), ('H2', {'H': 2}),
          ('N2', {'N': 2}), ('NO2', {'N': 1, 'O': 2}), ('H2O2', {'H': 2, 'O': 2})]
-_AW = {'H': 1.008, 'N': 14.007, 'O': 15.999}          # only to give FreeTrans a plausible mass
+_AW = {'H': 1.008, 'N': 14.007, 'O': 15.999, 'C': 12.011}          # only to give FreeTrans a plausible mass
 
 H2O_LOW = [4.04618796e+00, -6.87238823e-04, 2.79722240e-06, -1.42318006e-09, 2.34551159e-13,
            -3.02826236e+04, -2.50036531e-01]
@@ -19,7 +19,25 @@ H2O_HIGH = [2.41854323e+00, 3.35448922e-03, -9.66398101e-07, 1.34441829e-10, -7.
 H2O_SHOMATE = [30.092, 6.832514, 6.793435, -2.53448, 0.082139, -250.881, 223.3967, -241.8264]
 
 T_RANGE = {'Nasa': (250., 2800.), 'Nasa9': (250., 5000.), 'Shomate': (520., 1650.),
-           'StatMech': (150., 1500.), 'mode': (150., 1500.)}
+           'StatMech': (150., 1500.), 'mode': (150., 1500.), 'SingleNasa9': (250., 950.)}
+
+# the gas constant as documented (only to rescale the input coefficients of a Shomate
+# polynomial into the unit it is stored in)
+R_DOC = {'J/mol/K': 8.3144598, 'kJ/mol/K': 8.3144598e-3, 'L kPa/mol/K': 8.3144598,
+         'cm3 kPa/mol/K': 8.3144598e3, 'm3 Pa/mol/K': 8.3144598, 'cm3 MPa/mol/K': 8.3144598,
+         'm3 bar/mol/K': 8.3144598e-5, 'L bar/mol/K': 8.3144598e-2, 'L torr/mol/K': 62.363577,
+         'cal/mol/K': 1.9872036, 'kcal/mol/K': 1.9872036e-3, 'L atm/mol/K': 0.082057338,
+         'cm3 atm/mol/K': 82.057338, 'eV/K': 8.6173303e-5, 'Eh/K': 3.1668105e-06,
+         'Ha/K': 3.1668105e-06}
+
+# documented default value of every option (passed explicitly in the `expl` cells)
+DEFAULT_VALUES = {'P': 1.0, 'x': 0.0, 'S_elements': False, 'use_references': True,
+                  'verbose': False, 'include_ZPE': False, 'rev': False, 'act': False, 'del_m': 1}
+SCALAR_T_TYPES = ['float', 'int', 'npfloat', 'npint', 'T0']
+ARRAY_T_TYPES = ['ndarray', 'list', 'tuple', 'intarray', 'len1']
+P_VARIANTS = ['random', 'one', 'int', 'npfloat']
+X_VARIANTS = ['random', 'zero', 'breakpoint', 'int_one', 'top']
+COMP_VARIANTS = ['ints', 'zero_counts', 'float_counts']
 
 
 def cov_model(name, rnd):
@@ -76,15 +94,11 @@ def nasa9(name, comp, rnd, cov, phase='G'):
                  misc_models=[cov_model(name, rnd)] if cov else None)
 
 
-# value of the fitting unit in J/mol/K (own constants; only rescales the input coefficients)
-OWN_UNIT_IN_J = {'J/mol/K': 1.0, 'kJ/mol/K': 1.0e3, 'cal/mol/K': 4.184, 'eV/K': 96485.33}
-
-
 def shomate(name, comp, rnd, cov, phase='G', own='J/mol/K'):
     import numpy as np
     from pmutt.empirical.shomate import Shomate
     own = 'J/mol/K' if own in (None, 'none') else own
-    a = np.array(_pert(H2O_SHOMATE, rnd)) / OWN_UNIT_IN_J[own]
+    a = np.array(_pert(H2O_SHOMATE, rnd)) * (R_DOC[own] / R_DOC['J/mol/K'])
     return Shomate(name=name, elements=dict(comp), phase=phase, T_low=500., T_high=1700.,
                    a=a, units=own,
                    misc_models=[cov_model(name, rnd)] if cov else None)
@@ -120,6 +134,51 @@ def mode(kind, rnd):
     raise ValueError(kind)
 
 
+def aux(kind, name, comp, rnd):
+    """auxiliary model classes that inherit the generic dimensional getters"""
+    import numpy as np
+    if kind == 'GasPressureAdj':
+        from pmutt.empirical import GasPressureAdj
+        return GasPressureAdj()
+    if kind == 'PiecewiseCovEffect':
+        return cov_model(name, rnd)
+    if kind == 'Reference':
+        from pmutt.empirical.references import Reference
+        return Reference(name=name, elements=dict(comp), T_ref=298.15, HoRT_ref=rnd.uniform(-200., 50.))
+    if kind == 'References':
+        from pmutt.empirical.references import References
+        return References(offset={e: rnd.uniform(-3., 3.) for e in ('H', 'N', 'O')},
+                          descriptor='elements', T_ref=298.15)
+    if kind == 'SingleNasa9':
+        from pmutt.empirical.nasa import SingleNasa9
+        return SingleNasa9(T_low=200., T_high=1000.,
+                           a=np.array([rnd.uniform(-1e4, 1e4), rnd.uniform(-100., 100.), rnd.uniform(2., 6.),
+                                       rnd.uniform(-1e-3, 1e-3), rnd.uniform(-1e-7, 1e-7), rnd.uniform(-1e-11, 1e-11),
+                                       rnd.uniform(-1e-15, 1e-15), rnd.uniform(-4e4, -1e4), rnd.uniform(-5., 10.)]))
+    raise ValueError(kind)
+
+
+def comp_variant(comp, variant):
+    """the same composition written differently: zero counts of absent elements, float counts"""
+    if variant == 'zero_counts':
+        out = dict(comp)
+        out['C'] = 0
+        for e in ('H', 'N', 'O'):
+            out.setdefault(e, 0)
+        return out
+    if variant == 'float_counts':
+        return {e: float(n) for e, n in comp.items()}
+    return dict(comp)
+
+
+def sibling_comp(comp):
+    """same element symbols, different stoichiometry (for a species of the SAME name)"""
+    out = dict(comp)
+    first = sorted(out)[0]
+    out[first] = out[first] + 1
+    return out
+
+
 def species(kind, name, comp, rnd, refs, cov, phase='gas', own='none'):
     ph = 'S' if phase == 'condensed' else 'G'
     if kind == 'StatMech':
@@ -134,6 +193,7 @@ def species(kind, name, comp, rnd, refs, cov, phase='gas', own='none'):
 
 
 def reaction(cls, kind, rnd, refs, cov):
+    """kind: species the reaction is built from ('StatMech' | 'Nasa')"""
     if cls == 'Reaction':
         from pmutt.reaction import Reaction as K
     elif cls == 'ChemkinReaction':
@@ -146,32 +206,73 @@ def reaction(cls, kind, rnd, refs, cov):
              products_stoich=[st()], transition_state=[sp[3]], transition_state_stoich=[1.])
 
 
-def build(cell, rnd):
-    """-> (object, composition dict for the per-mass forms, T-range key)"""
+def build(cell, rnd, comp_var='ints', sibling_of=None):
+    """-> (object, composition {H, N, O} for the per-mass forms, T-range key, (name, comp))
+    sibling_of = (name, comp): a second species of the same name and element symbols but
+    different stoichiometry."""
     cls = cell['cls']
     zero = {'H': 0, 'N': 0, 'O': 0}
-    if cell['species'] != 'none':
-        return reaction(cls, cell['species'], rnd, cell['refs'], cell['cov']), zero, cell['species']
-    if cls in ('StatMech', 'Nasa', 'Nasa9', 'Shomate'):
-        name, comp = rnd.choice(COMPS)
+    if cell['isrxn']:
+        return reaction(cls, cell['species'], rnd, cell['refs'], cell['cov']), zero, cell['species'], None
+    if cell['mass'] or cls == 'References':
+        if sibling_of is not None:
+            name, comp = sibling_of[0], sibling_comp(sibling_of[1])
+        else:
+            name, comp = rnd.choice(COMPS)
         full = dict(zero)
         full.update(comp)
-        return species(cls, name, comp, rnd, cell['refs'], cell['cov'], cell['phase'], cell['own']), full, cls
-    return mode(cls, rnd), zero, 'mode'
+        given = comp_variant(comp, comp_var)
+        if cls in ('Reference', 'References'):
+            obj = aux(cls, name, given, rnd)
+            return obj, (full if cls == 'Reference' else zero), 'mode', (name, comp)
+        return species(cls, name, given, rnd, cell['refs'], cell['cov'], cell['phase'], cell['own']), \
+            full, cls, (name, comp)
+    if cell['isaux']:
+        return aux(cls, 'A', {}, rnd), zero, ('SingleNasa9' if cls == 'SingleNasa9' else 'mode'), None
+    return mode(cls, rnd), zero, 'mode', None
 
 
-def option_values(cell, rnd, trange):
+def draw_T(shape, ttype, rnd, lo, hi):
+    """a temperature (or temperatures) in every accepted type / container"""
+    import numpy as np
+    if shape == 'array':
+        n = 1 if ttype == 'len1' else 3
+        vals = sorted(rnd.uniform(lo, hi) for _ in range(n))
+        if ttype == 'list':
+            return list(vals)
+        if ttype == 'tuple':
+            return tuple(vals)
+        if ttype == 'intarray':
+            return np.array([int(v) for v in vals])
+        return np.array(vals)
+    v = rnd.uniform(lo, hi)
+    if ttype == 'int':
+        return int(v)
+    if ttype == 'npfloat':
+        return np.float64(v)
+    if ttype == 'npint':
+        return np.int64(int(v))
+    if ttype == 'T0':
+        return 298.15
+    return v
+
+
+def option_values(cell, rnd, trange, ttype='float', pvar='random', xvar='random', descriptors=None):
     """concrete values of every keyword either call can receive"""
     import numpy as np
     lo, hi = T_RANGE[trange]
-    if cell['shape'] == 'array':
-        T = np.array(sorted(rnd.uniform(lo, hi) for _ in range(3)))
-    else:
-        T = rnd.uniform(lo, hi)
-    return {'T': T, 'P': math.exp(rnd.uniform(math.log(0.02), math.log(50.))),
-            'x': rnd.uniform(0.05, 0.95), 'S_elements': True, 'use_references': False,
+    T = draw_T(cell['shape'], ttype, rnd, lo, hi)
+    P = math.exp(rnd.uniform(math.log(0.02), math.log(50.)))
+    P = {'random': P, 'one': 1.0, 'int': rnd.choice([2, 3, 7]), 'npfloat': np.float64(P)}[pvar]
+    x = rnd.uniform(0.05, 0.95)
+    x = {'random': x, 'zero': 0.0, 'breakpoint': 0.25, 'int_one': 1, 'top': 1.0}[xvar]
+    vals = {'T': T, 'P': P, 'x': x, 'S_elements': True, 'use_references': False,
             'verbose': True, 'include_ZPE': True, 'rev': True, 'act': True,
-            'del_m': rnd.choice([2, 0, None]), 'state': cell['state']}
+            'del_m': rnd.choice([2, 0, None]), 'state': cell['state'],
+            'descriptors': dict(descriptors or {})}
+    for o in cell['atdefault']:
+        vals[o] = DEFAULT_VALUES[o]
+    return vals
 
 
 DEFAULT_SYMBOLS = {'T0': 298.15, 'one_bar': 1.0}
